@@ -170,7 +170,7 @@ Proof.
     + rewrite app_nil_r in Hp. rewrite Hp. rewrite find_split_none by apply dec_of_N_no_colon. exact I.
     + cbn [app] in Hr. inversion Hr as [[Hc Hs']]. subst c0. rewrite Hp.
       rewrite find_split_app; [|apply dec_of_N_no_colon | unfold isb; rewrite N_of_c_colon; reflexivity].
-      rewrite py_int_dec_of_N by exact Hs.
+      rewrite strict_len_dec_of_N by exact Hs.
       assert (Hneg : (Z.of_N (blen s) <? 0)%Z = false) by (apply Z.ltb_ge; lia). rewrite Hneg.
       rewrite N2Z.id. rewrite take_clamped_short; [reflexivity|].
       rewrite Hs'. unfold blen. rewrite app_length. lia.
